@@ -155,6 +155,28 @@ inline void ResetKnobs()
 	BitSerializer::Convert::Utf::Verif::encodedChunkSize = 0x10000;
 }
 
+// Allocation-failure window: C20 sets t_failAllocNext = k; the next library call (and only the library call) sees its
+// k-th operator new fail. t_lastCallAllocs reports how many allocations the last library call made.
+inline thread_local uint64_t t_failAllocNext = 0;
+inline thread_local uint64_t t_lastCallAllocs = 0;
+struct FailWindow
+{
+	uint64_t start;
+	FailWindow()
+	{
+		auto& a = sim::alloc();
+		start = a.ordinal;
+		if (t_failAllocNext != 0 && a.armed) a.failAt = a.ordinal + t_failAllocNext;
+		t_failAllocNext = 0;
+	}
+	~FailWindow()
+	{
+		auto& a = sim::alloc();
+		a.failAt = 0;
+		t_lastCallAllocs = a.ordinal - start;
+	}
+};
+
 struct LoadInfo
 {
 	bool faultFired = false;
@@ -176,12 +198,12 @@ inline CallResult LoadDynWith(ArchiveOps& ops, DynNode& skel, const std::string&
 		if (faults.eofAt < bytes.size())
 		{
 			const std::string prefix = bytes.substr(0, faults.eofAt);
-			r = Guarded([&] { ops.LoadDyn(skel, o, IoIn{ &prefix, nullptr }); });
+			r = Guarded([&] { FailWindow fw; ops.LoadDyn(skel, o, IoIn{ &prefix, nullptr }); });
 			if (info) info->faultFired = true;
 		}
 		else
 		{
-			r = Guarded([&] { ops.LoadDyn(skel, o, IoIn{ &bytes, nullptr }); });
+			r = Guarded([&] { FailWindow fw; ops.LoadDyn(skel, o, IoIn{ &bytes, nullptr }); });
 		}
 	}
 	else
@@ -192,7 +214,7 @@ inline CallResult LoadDynWith(ArchiveOps& ops, DynNode& skel, const std::string&
 		sb.SetSeekBeyondFails(c.seekBeyondFails);
 		std::istream is(&sb);
 		if (throwMode) is.exceptions(std::ios::badbit);
-		r = Guarded([&] { ops.LoadDyn(skel, o, IoIn{ nullptr, &is }); });
+		r = Guarded([&] { FailWindow fw; ops.LoadDyn(skel, o, IoIn{ nullptr, &is }); });
 		if (info)
 		{
 			info->faultFired = sb.FaultFired();
@@ -220,12 +242,12 @@ inline CallResult SaveDynWith(ArchiveOps& ops, DynNode& root, std::string& outBy
 	outBytes.clear();
 	if (!c.stream)
 	{
-		return Guarded([&] { ops.SaveDyn(root, o, IoOut{ &outBytes, nullptr }); });
+		return Guarded([&] { FailWindow fw; ops.SaveDyn(root, o, IoOut{ &outBytes, nullptr }); });
 	}
 	sim::SimOStreamBuf sb(outBytes, c.bufSize, faults);
 	std::ostream os(&sb);
 	if (faults.throwing) os.exceptions(std::ios::badbit);
-	CallResult r = Guarded([&] { ops.SaveDyn(root, o, IoOut{ nullptr, &os }); });
+	CallResult r = Guarded([&] { FailWindow fw; ops.SaveDyn(root, o, IoOut{ nullptr, &os }); });
 	// the flush any real program performs before it looks at the file
 	try { os.flush(); } catch (...) {}
 	if (faultFired) *faultFired = sb.FaultFired();
